@@ -100,47 +100,50 @@ Section Sys.
     rewrite Hn in H3. symmetry in H3. apply (t_create_at f cs d x r isdir k mode T); auto.
   Qed.
 
+  (* outcome of a call that reports ROk or an errno *)
+  Definition outcome (res : result) (P : Prop) : Prop := (exists e, res = RErr e) \/ (res = ROk /\ P).
+
   Lemma t_mkdir f cs d x mode f' res : Tgt f cs d x -> sys_mkdir c f (tpath cs x) mode = (f', res) ->
     Ctx f' /\ above d f f' /\
-    (res = ROk -> created f f' d x (f_next f) /\ is_dir f' (f_next f) = true).
+    outcome res (created f f' d x (f_next f) /\ is_dir f' (f_next f) = true).
   Proof.
-    intros T H. destruct (sys_mkdir_inv _ _ _ _ _ _ H) as [[-> Hr]|(r & E & Hn & -> & ->)].
-    - split; [apply T|]. split; [apply above_refl|]. intros; congruence.
+    intros T H. destruct (sys_mkdir_inv _ _ _ _ _ _ H) as [[-> He]|(r & E & Hn & -> & ->)].
+    - split; [apply T|]. split; [apply above_refl|]. left; auto.
     - destruct (t_create f cs d x r true (KDir (l_dir r) []) (N.land mode mkdir_mask) T E Hn eq_refl) as (C' & A & Hc & Hg).
-      split; [exact C'|]. split; [exact A|]. intros _. split; [exact Hc|]. unfold is_dir, dir_of. rewrite Hg. reflexivity.
+      split; [exact C'|]. split; [exact A|]. right. split; auto. split; [exact Hc|]. unfold is_dir, dir_of. rewrite Hg. reflexivity.
   Qed.
 
   (* the new inode of a non-directory creation is not a directory; it is a symlink only for symlink(2) *)
   Lemma t_mknod f cs d x typ mode rdev f' res : Tgt f cs d x ->
     sys_mknod c f (tpath cs x) typ mode rdev = (f', res) ->
     Ctx f' /\ above d f f' /\
-    (res = ROk -> created f f' d x (f_next f) /\ FsP.is_link f' (f_next f) = false).
+    outcome res (created f f' d x (f_next f) /\ FsP.is_link f' (f_next f) = false).
   Proof.
-    intros T H. destruct (sys_mknod_inv _ _ _ _ _ _ _ _ H) as [[-> Hr]|(r & a & b0 & E & Hn & -> & ->)].
-    - split; [apply T|]. split; [apply above_refl|]. intros; congruence.
+    intros T H. destruct (sys_mknod_inv _ _ _ _ _ _ _ _ H) as [[-> He]|(r & a & b0 & E & Hn & -> & ->)].
+    - split; [apply T|]. split; [apply above_refl|]. left; auto.
     - destruct (t_create f cs d x r false (KSpecial a b0) (N.land mode perm_mask) T E Hn I) as (C' & A & Hc & Hg).
-      split; [exact C'|]. split; [exact A|]. intros _. split; [exact Hc|]. unfold FsP.is_link. rewrite Hg. reflexivity.
+      split; [exact C'|]. split; [exact A|]. right. split; auto. split; [exact Hc|]. unfold FsP.is_link. rewrite Hg. reflexivity.
   Qed.
 
   Lemma t_mknod_reg f cs d x mode f' res : Tgt f cs d x ->
     sys_mknod_reg c f (tpath cs x) mode = (f', res) ->
     Ctx f' /\ above d f f' /\
-    (res = ROk -> created f f' d x (f_next f) /\ FsP.is_link f' (f_next f) = false).
+    outcome res (created f f' d x (f_next f) /\ FsP.is_link f' (f_next f) = false).
   Proof.
-    intros T H. destruct (sys_mknod_reg_inv _ _ _ _ _ _ H) as [[-> Hr]|(r & E & Hn & -> & ->)].
-    - split; [apply T|]. split; [apply above_refl|]. intros; congruence.
+    intros T H. destruct (sys_mknod_reg_inv _ _ _ _ _ _ H) as [[-> He]|(r & E & Hn & -> & ->)].
+    - split; [apply T|]. split; [apply above_refl|]. left; auto.
     - destruct (t_create f cs d x r false (KFile []) (N.land mode perm_mask) T E Hn I) as (C' & A & Hc & Hg).
-      split; [exact C'|]. split; [exact A|]. intros _. split; [exact Hc|]. unfold FsP.is_link. rewrite Hg. reflexivity.
+      split; [exact C'|]. split; [exact A|]. right. split; auto. split; [exact Hc|]. unfold FsP.is_link. rewrite Hg. reflexivity.
   Qed.
 
   Lemma t_symlink f cs d x t f' res : Tgt f cs d x ->
     sys_symlink c f t (tpath cs x) = (f', res) ->
-    Ctx f' /\ above d f f' /\ (res = ROk -> created f f' d x (f_next f)).
+    Ctx f' /\ above d f f' /\ outcome res (created f f' d x (f_next f)).
   Proof.
-    intros T H. destruct (sys_symlink_inv _ _ _ _ _ _ H) as [[-> Hr]|(r & E & Hn & -> & ->)].
-    - split; [apply T|]. split; [apply above_refl|]. intros; congruence.
+    intros T H. destruct (sys_symlink_inv _ _ _ _ _ _ H) as [[-> He]|(r & E & Hn & -> & ->)].
+    - split; [apply T|]. split; [apply above_refl|]. left; auto.
     - destruct (t_create f cs d x r false (KLink t) 511 T E Hn I) as (C' & A & Hc & Hg).
-      split; [exact C'|]. split; [exact A|]. intros _. exact Hc.
+      split; [exact C'|]. split; [exact A|]. right. split; auto.
   Qed.
 
   (* open(O_CREAT) follows a final symlink: safe when the name is absent *)
@@ -163,5 +166,167 @@ Section Sys.
       split; auto. split; auto. intros i Hi. inversion Hi; subst i. split; [reflexivity|]. split; [exact Hc|]. split.
       + unfold FsP.is_link. rewrite Hg. reflexivity.
       + eexists. exact Hg.
+  Qed.
+
+  (* ---- removal ---- *)
+  Lemma t_del f cs d x : Tgt f cs d x ->
+    let f' := del_ent f d x in
+    Ctx f' /\ above d f f' /\ blookup x (dents f' d) = None.
+  Proof.
+    intros T f'. destruct (eff_del c f0 dr dcs f cs d x) as (C' & A & Hb & _); try apply T. auto.
+  Qed.
+
+  Lemma t_unlink f cs d x f' res : Tgt f cs d x -> sys_unlink c f (tpath cs x) = (f', res) ->
+    Ctx f' /\ above d f f' /\ outcome res (blookup x (dents f' d) = None).
+  Proof.
+    intros T H. destruct (sys_unlink_inv _ _ _ _ _ H) as [[-> He]|(r & i & E & Hi & Hd & -> & ->)].
+    - split; [apply T|]. split; [apply above_refl|]. left; auto.
+    - destruct (tgt_resolve_nf f cs d x r T E) as (H1 & H2 & H3). rewrite H1, H2.
+      destruct (t_del f cs d x T) as (C' & A & Hb). split; auto. split; auto. right; auto.
+  Qed.
+
+  Lemma t_rmdir f cs d x f' res : Tgt f cs d x -> sys_rmdir c f (tpath cs x) = (f', res) ->
+    Ctx f' /\ above d f f' /\ outcome res (blookup x (dents f' d) = None).
+  Proof.
+    intros T H. destruct (sys_rmdir_inv _ _ _ _ _ H) as [[-> He]|(r & i & E & Hi & Hd & -> & ->)].
+    - split; [apply T|]. split; [apply above_refl|]. left; auto.
+    - destruct (tgt_resolve_nf f cs d x r T E) as (H1 & H2 & H3). rewrite H1, H2.
+      destruct (t_del f cs d x T) as (C' & A & Hb). split; auto. split; auto. right; auto.
+  Qed.
+
+  Lemma t_remove_all f cs d x f' res : Tgt f cs d x -> sys_remove_all c f (tpath cs x) = (f', res) ->
+    Ctx f' /\ above d f f' /\ outcome res (blookup x (dents f' d) = None).
+  Proof.
+    intros T H. unfold sys_remove_all in H.
+    destruct (tpath cs x) as [|a p] eqn:Ep; [unfold tpath, render in Ep; discriminate|].
+    destruct (ends_with_dot (a :: p)).
+    { injection H as <- <-. split; [apply T|]. split; [apply above_refl|]. left; eauto. }
+    rewrite <- Ep in H.
+    destruct (resolve c f (tpath cs x) false) as [r|e] eqn:E.
+    - destruct (tgt_resolve_nf f cs d x r T E) as (H1 & H2 & H3).
+      destruct (l_ino r) as [i|] eqn:Ei.
+      + destruct (is_nil (l_name r)) eqn:En.
+        * injection H as <- <-. split; [apply T|]. split; [apply above_refl|]. left; eauto.
+        * injection H as <- <-. rewrite H1, H2. destruct (t_del f cs d x T) as (C' & A & Hb).
+          split; auto. split; auto. right; auto.
+      + injection H as <- <-. split; [apply T|]. split; [apply above_refl|]. right. split; auto.
+    - destruct (resolve_tpath_err c f0 dr dcs f cs d x false e) as [->|[G _]]; try apply T; auto; [|discriminate].
+      injection H as <- <-. split; [apply T|]. split; [apply above_refl|]. left; eauto.
+  Qed.
+
+  (* ---- metadata of the inode the name stands for: an SS inode, and not a symlink when the
+          call follows ---- *)
+  Definition names_ss (f : fs) (d : N) (x : bytes) (i : N) : Prop :=
+    blookup x (dents f d) = Some i /\ SS i.
+
+  Definition meta_post (f f' : fs) : Prop :=
+    Ctx f' /\ (forall d, above d f f') /\ (forall j, dents f' j = dents f j) /\
+    (forall j, is_dir f' j = is_dir f j) /\ (forall j, FsP.is_link f' j = FsP.is_link f j) /\
+    f_next f' = f_next f /\ (forall j, get f j <> None -> get f' j <> None).
+
+  Lemma meta_post_refl f : Ctx f -> meta_post f f.
+  Proof. intros C. split; [exact C|]. split; [intros d; apply above_refl|]. repeat split; auto. Qed.
+
+  Lemma meta_post_trans f1 f2 f3 : meta_post f1 f2 -> meta_post f2 f3 -> meta_post f1 f3.
+  Proof.
+    intros (C2 & A2 & D2 & I2 & L2 & N2 & G2) (C3 & A3 & D3 & I3 & L3 & N3 & G3).
+    split; auto. split; [|split; [|split; [|split; [|split]]]].
+    - intros d a p e q H1 H2. apply (chain_same f1 f3); auto.
+      + intros j. rewrite D3, D2. reflexivity.
+      + intros j Hj. rewrite I3, I2. exact Hj.
+    - intros j. rewrite D3, D2. reflexivity.
+    - intros j. rewrite I3, I2. reflexivity.
+    - intros j. rewrite L3, L2. reflexivity.
+    - congruence.
+    - auto.
+  Qed.
+
+  Lemma names_ss_meta f f' d x i : names_ss f d x i -> meta_post f f' -> names_ss f' d x i.
+  Proof. intros [H1 H2] (_ & _ & D & _). split; auto. rewrite D. exact H1. Qed.
+
+  Lemma t_put_meta f i n m : Ctx f -> SS i -> get f i = Some n -> meta_post f (put f i (set_meta n m)).
+  Proof.
+    intros C Hs Hg. apply (eff_put c f0 dr dcs f i n (set_meta n m)); auto.
+    unfold same_shape. destruct n as [[p es|x|t|ty rd] m0]; simpl; auto.
+  Qed.
+
+  Lemma tgt_ino_nf f cs d x i : Tgt f cs d x -> resolve_ino c f (tpath cs x) false = inl i ->
+    blookup x (dents f d) = Some i.
+  Proof.
+    intros T H. unfold resolve_ino in H. destruct (resolve c f (tpath cs x) false) as [r|e] eqn:E; [|discriminate].
+    destruct (tgt_resolve_nf f cs d x r T E) as (_ & _ & H3). rewrite <- H3.
+    destruct (l_ino r); inversion H; auto.
+  Qed.
+
+  Lemma tgt_ino_fl f cs d x i j : Tgt f cs d x -> blookup x (dents f d) = Some j -> FsP.is_link f j = false ->
+    resolve_ino c f (tpath cs x) true = inl i -> i = j.
+  Proof.
+    intros T Hb Hl H. unfold resolve_ino in H. destruct (resolve c f (tpath cs x) true) as [r|e] eqn:E; [|discriminate].
+    destruct (resolve_tpath c f0 dr dcs f cs d x true r) as [(_ & _ & H3)|(_ & k & Hk & Hkl)]; try apply T; auto.
+    - rewrite Hb in H3. rewrite H3 in H. inversion H; auto.
+    - rewrite Hb in Hk. inversion Hk; subst. congruence.
+  Qed.
+
+  Lemma t_lchown f cs d x i u g f' res : Tgt f cs d x -> names_ss f d x i ->
+    sys_lchown c f (tpath cs x) u g = (f', res) -> meta_post f f'.
+  Proof.
+    intros T [Hb Hs] H. destruct (sys_lchown_inv _ _ _ _ _ _ _ H) as [[-> _]|(j & n & m & E & Hg & -> & ->)].
+    - apply meta_post_refl. apply T.
+    - rewrite (tgt_ino_nf f cs d x j T E) in Hb. inversion Hb; subst. apply t_put_meta; auto. apply T.
+  Qed.
+
+  Lemma t_utimens f cs d x i t f' res : Tgt f cs d x -> names_ss f d x i ->
+    sys_utimens c f (tpath cs x) t = (f', res) -> meta_post f f'.
+  Proof.
+    intros T [Hb Hs] H. destruct (sys_utimens_inv _ _ _ _ _ _ H) as [[-> _]|(j & n & m & E & Hg & -> & ->)].
+    - apply meta_post_refl. apply T.
+    - rewrite (tgt_ino_nf f cs d x j T E) in Hb. inversion Hb; subst. apply t_put_meta; auto. apply T.
+  Qed.
+
+  Lemma t_lsetxattr f cs d x i k v f' res : Tgt f cs d x -> names_ss f d x i ->
+    sys_lsetxattr c f (tpath cs x) k v = (f', res) -> meta_post f f'.
+  Proof.
+    intros T [Hb Hs] H. destruct (sys_lsetxattr_inv _ _ _ _ _ _ _ H) as [[-> _]|(j & n & m & E & Hg & -> & ->)].
+    - apply meta_post_refl. apply T.
+    - rewrite (tgt_ino_nf f cs d x j T E) in Hb. inversion Hb; subst. apply t_put_meta; auto. apply T.
+  Qed.
+
+  Lemma t_chmod f cs d x i mode f' res : Tgt f cs d x -> names_ss f d x i -> FsP.is_link f i = false ->
+    sys_chmod c f (tpath cs x) mode = (f', res) -> meta_post f f'.
+  Proof.
+    intros T [Hb Hs] Hl H. destruct (sys_chmod_inv _ _ _ _ _ _ H) as [[-> _]|(j & n & m & E & Hg & -> & ->)].
+    - apply meta_post_refl. apply T.
+    - rewrite (tgt_ino_fl f cs d x j i T Hb Hl E). apply t_put_meta; auto. apply T.
+      rewrite <- (tgt_ino_fl f cs d x j i T Hb Hl E). exact Hg.
+  Qed.
+
+  (* ---- an open descriptor of a new regular file ---- *)
+  Lemma t_fd_truncate f i : Ctx f -> b <= i -> meta_post f (fd_truncate f i).
+  Proof.
+    intros C Hi. unfold fd_truncate. destruct (get f i) as [[[p es|x|t|ty rd] m]|] eqn:E; try (apply meta_post_refl; auto).
+    eapply (eff_put c f0 dr dcs f i); [exact C|right; auto|exact E|exact I].
+  Qed.
+
+  Lemma t_fd_pwrite f i off data f' res : Ctx f -> b <= i -> fd_pwrite f i off data = (f', res) -> meta_post f f'.
+  Proof.
+    intros C Hi H. unfold fd_pwrite in H. destruct (get f i) as [[[p es|x|t|ty rd] m]|] eqn:E;
+      try (inversion H; subst; apply meta_post_refl; auto).
+    destruct data; inversion H; subst; [apply meta_post_refl; auto|].
+    eapply (eff_put c f0 dr dcs f i); [exact C|right; auto|exact E|exact I].
+  Qed.
+
+  (* ---- link(2): the new name is the target; the old path may lead anywhere ---- *)
+  Lemma t_link f cs d x first f' res : Tgt f cs d x -> sys_link c f first (tpath cs x) = (f', res) ->
+    Ctx f' /\ above d f f' /\
+    outcome res (exists i, resolve_ino c f first false = inl i /\ blookup x (dents f' d) = Some i /\
+                           f' = add_ent f d x i).
+  Proof.
+    intros T H. destruct (sys_link_inv _ _ _ _ _ _ H) as [[-> He]|(i & r & E1 & E & Hn & Hd & -> & ->)].
+    - split; [apply T|]. split; [apply above_refl|]. left; auto.
+    - destruct (tgt_resolve_nf f cs d x r T E) as (H1 & H2 & H3). rewrite Hn in H3. symmetry in H3.
+      rewrite H1, H2.
+      destruct (eff_add c f0 dr dcs f cs d x i) as (C' & A & Hb & _); try apply T; auto.
+      { eapply tgt_okn; eauto. }
+      split; auto. split; auto. right. split; auto. exists i. auto.
   Qed.
 End Sys.
